@@ -51,7 +51,7 @@ func drawGemm(t *simrt.Tape) *gemmInst {
 		case 2:
 			return 64 + t.Choose(simrt.KWorkload, 2) // 64 (one block) or 65
 		}
-		return 65 + t.Choose(simrt.KWorkload, 120)
+		return 65 + t.Choose(simrt.KWorkload, 80+40*scale)
 	}
 	g.m, g.n = dim(), dim()
 	if t.Choose(simrt.KWorkload, 8) == 7 {
